@@ -92,7 +92,11 @@ def gen_policy(rng):
             M, m = rng.choice(GLIBC + [(2, 5), (2, 12), (2, 17), (2, 17), (2, 30), (2, 49)])
             rules.append([M, m, rng.choice(["x86_64", "i686", "aarch64", "armv7l", "armv8l", "s390x"]),
                           rng.choice([None, True, False, False])])
-        return {"kind": "func", "default": rng.choice([None, None, True, False]), "rules": rules}
+        pol = {"kind": "func", "default": rng.choice([None, None, True, False]), "rules": rules}
+        if rng.random() < 0.4:        # hook plus stale legacy attributes in the same module
+            pol.update({"m1": rng.choice([None, True, False, False]), "m2010": rng.choice([None, True, False, False]),
+                        "m2014": rng.choice([None, True, False, False])})
+        return pol
     return {"kind": "legacy", "m1": rng.choice([None, True, False]), "m2010": rng.choice([None, True, False]),
             "m2014": rng.choice([None, True, False])}
 
